@@ -17,7 +17,13 @@ pub struct GenOpts {
 }
 
 pub fn gen_text(src: &mut Src) -> String {
-    src.text(TEXT_FRAGS, 4)
+    let mut t = src.text(TEXT_FRAGS, 4);
+    if src.chance(3) {
+        // rarely: a string that crosses typical buffer thresholds
+        let l = crate::pools::long_frags();
+        t.push_str(l[src.below(l.len())]);
+    }
+    t
 }
 
 pub fn gen_ts(src: &mut Src) -> i64 {
